@@ -325,6 +325,35 @@ theorem C16_reachable_info_total {m : SeqMod} (h : WF m) (ho : OrdWF m) (hist : 
       InfoOk m (frameInfo m s') ∧ (frameInfo m s').row < (frameInfo m s').numRows ∧ 0 < s'.ftBpm :=
   ⟨(C16_reachable_total h ho hist s hc hr he).1, C16_reachable_info h hist s hc hr he⟩
 
+/-! ### A pattern-loop jump cannot leave the pattern
+
+The loop target (`f->loop[chn].start`, or the global `f->loop_start`) is a row number recorded in
+whatever pattern was playing when the loop start effect ran; nothing relates it to the pattern
+playing when the loop end effect arms `f->loop_dest` (E60 on row 40 of a 64-row pattern, E61 in a
+16-row pattern; in the flow modes without `FLOW_LOOP_PATTERN_RESET` the target survives the
+pattern change).  The real code guarantees `row < num_rows` only through the end-of-pattern check
+that `next_row` performs AFTER the loop jump; `Seq.nextRow` models that order of steps. -/
+
+/-- **C16_loop_jump_lands_in_pattern**: for EVERY value of `f->loop_dest` (any loop target carried
+over from any pattern, any flow mode), every row delay, break and jump state: `next_row` from a
+playing state with a fresh `f->num_rows` ends on a row inside the pattern of the order it ends on,
+again with a fresh `f->num_rows` — a loop target at or beyond the end of the current pattern moves
+on to the next order, it is never reported as the row. -/
+theorem C16_loop_jump_lands_in_pattern {m : SeqMod} (h : WF m) {s s' : St} (hp : Playing m s) (hf : Fresh m s)
+    (hn : nextRow m s = some s') :
+    Playing m s' ∧ Fresh m s' ∧ 0 ≤ s'.row ∧ s'.row < m.rowsOf (m.xo s'.ord) := by
+  obtain ⟨p', _, _, fr⟩ := nextRow_spec h.facts hp hn
+  obtain ⟨f', r'⟩ := fr hf
+  refine ⟨p', f', p'.core.row, ?_⟩
+  unfold Fresh at f'; omega
+
+/-- the witness of the seeded defect "loop jump `else if` end-of-pattern check": playing order 1 of
+`exMod` (pattern 1, 16 rows) at row 5 with a loop jump to row 40 armed (a target recorded in the
+64-row pattern 0): `next_row` moves on to order 2, row 0 -/
+example :
+    (nextRow exMod { exPlaying with row := 5, frame := 6, loopDest := 40 }).map (fun s => (s.ord, s.row, s.numRows, s.loopDest)) =
+      some (2, 0, 64, -1) := by decide
+
 /-! ### xmp_play_buffer: a call plays zero or more frames and nothing else
 
 `Seq.playBuffer m loop s effs` is the sequencer side of `xmp_play_buffer(ctx, out, size, loop)`:
@@ -525,8 +554,9 @@ open Xmp.Seq Xmp.Gen.PlayerConsts
 `Fx.processFx` is `libxmp_process_fx` restricted to the variables the kernel reads, for every effect
 number and parameter; `Fx.Prim` lists the writes an effect stage can perform (a `process_fx` call
 with any channel state and loop bookkeeping, a whole `read_row` over given events, the speed pre-scan of `check_delay`, an IT tempo slide
-tick, a global-volume write, and `raw` = a write by code that is not modelled — the FAR tempo
-effects — which stays constrained by the monitored `EffOk`).  `EnvOk env` is the only requirement on
+tick, a global-volume write; since the FAR tempo effects are modelled too (`Fx.farTranslate`), the
+escape `raw` = a write by unmodelled code under the monitored `EffOk` is no longer needed for any
+effect of libxmp's player).  `EnvOk env` is the only requirement on
 the module: the tempo minimum of label `fx_s3m_bpm` is a non-zero byte. -/
 
 /-- **C16_fx_env_ok**: for the code as it is in /repo (the generated `s3mBpmClamp` is
@@ -537,7 +567,7 @@ theorem C16_fx_env_ok (env : Env) (h : env.bpmClamp = s3mBpmClamp) : EnvOk env :
 /-- **C16_fx_writer_sites**: EVERY assignment in src/*.c to an effect-owned variable the kernel
 reads (`p->speed`, `p->bpm`, `p->st26_speed`, `f->jump`, `f->jumpline`; list regenerated from the
 sources on every run) sits in a function that is modelled — as part of the kernel (`XmpModel.Seq`),
-as a `Prim` write of an effect stage, or listed as unmodelled (`raw`: `libxmp_far_update_tempo`). A
+as a `Prim` write of an effect stage (`libxmp_far_update_tempo` included: `Fx.farTempoFx`). A
 new writer makes this theorem fail. -/
 theorem C16_fx_writer_sites : ∀ w ∈ flowWriterSites, writerCovered w = true := by decide
 
@@ -569,6 +599,19 @@ theorem C16_fx_range_row {env : Env} (he : EnvOk env) {ord row : Int} (frame : I
     (chans : List (Ev × Int)) (chn : Int) {f f' : Flow} (hev : ∀ c ∈ chans, EvOk c.1) (h : FlowOk f)
     (hq : readRow env ord row frame chn chans f = some f') : FlowOk f' :=
   readRow_ok he frame ho hr chans chn f f' hev h hq
+
+/-- **C16_far_tempo_range**: `libxmp_far_translate_tempo`, whenever it accepts (returns 0), yields a
+speed in 4..37 and a tempo of at least `XMP_MIN_BPM` — for EVERY tempo mode, fine change, coarse
+tempo and accumulated fine tempo, the negative tempos that a lowered fine tempo followed by a
+slower coarse tempo produces included (the final clamp covers BOTH tempo modes); and the FAR tempo
+effects `FX_FAR_TEMPO` / `FX_FAR_F_TEMPO` with any parameter, in any module-wide tempo state, keep
+the range the kernel needs.  They are ordinary `Prim.fx` writes: `C16_fx_range`,
+`C16_inv_frame_fx`, `C16_reachable_fx` cover FAR modules with no monitored escape. -/
+theorem C16_far_tempo_range :
+    (∀ (mode fc coarse fine : Int) (r : Int × Int), (farTranslate mode fc coarse fine).2 = some r →
+      (4 ≤ r.1 ∧ r.1 ≤ 37) ∧ minBpm ≤ r.2) ∧
+    (∀ (f : Flow) (fxt fxp : Int), FlowOk f → FlowOk (farTempoFx f fxt fxp)) :=
+  ⟨fun mode fc coarse fine _ h => farTranslate_range mode fc coarse fine h, fun _ fxt fxp h => farTempoFx_ok h fxt fxp⟩
 
 /-- **C16_frame_fx_refines**: a frame whose effect stages perform the writes `psA` (first tick of a
 row) and `psB` is a frame of the abstract model `Seq.playFrame` for effect outcomes inside `EffOk`. -/
@@ -670,6 +713,22 @@ def exEnv : Env :=
 
 example : EnvOk exEnv := C16_fx_env_ok exEnv rfl
 
+/-- the witness history of the seeded defect "clamp only in the old-tempo branch": `F0` (coarse 0,
+base 256), seven times `DF` (fine tempo −105), `FF` (coarse 15, base 8): tempo −97; the unsigned
+divisor takes 16 shifts, speed 21, and the tempo ends at the clamp `XMP_MIN_BPM` = 20 -/
+example :
+    let farEnv : Env := { exEnv with far := true }
+    let ps : List Prim := [.fx {} 0 0 fxFarTempo 0x00] ++ List.replicate 7 (.fx {} 0 0 fxFarFTempo 0x0f) ++ [.fx {} 0 0 fxFarTempo 0x0f]
+    farTranslate 1 0 15 (-105) = (-105, some (21, 20)) ∧ PrimsOk farEnv [.fx {} 0 0 fxFarTempo 0x0f] ∧
+    ((processFx farEnv 1 3 0 0 fxFarTempo 0x0f { (toFlow exPlaying {}) with farCoarse := 0, farFine := -105 }).map
+      fun r => (r.1.speed, r.1.bpm, r.1.farCoarse)) = some (21, 20, 15) ∧ ps.length = 9 := by
+  refine ⟨by decide, ?_, by decide, by decide⟩
+  intro p hp
+  simp only [List.mem_cons, List.mem_nil_iff, or_false] at hp
+  subst hp
+  simp [PrimOk]
+
+
 /-- a row with `A03` (speed 3), `T00` (tempo 0: clamped to the minimum 20), `C10` (break to row
 10) and `SB0`/`SB2` (loop start, loop twice) on `exPlaying`: speed 3, tempo 20, pending break to
 row 10, loop jump to row 3 armed -/
@@ -680,7 +739,7 @@ def exRowPrims : List Prim :=
 example : PrimsOk exEnv exRowPrims := by
   intro p hp
   simp only [exRowPrims, List.mem_cons, List.mem_nil_iff, or_false] at hp
-  rcases hp with h | h | h | h | h | h <;> subst h <;> simp [PrimOk, EvOk, exEnv, fxS3mSpeed]
+  rcases hp with h | h | h | h | h | h <;> subst h <;> simp [PrimOk, EvOk]
 
 example :
     let s := runPrims exEnv exPlaying exRowPrims
@@ -696,7 +755,7 @@ def exRowEvents : List (Ev × Int) :=
    ({ fxt := fxExtended, fxp := 0xd1, f2t := fxS3mSpeed, f2p := 5 }, 0)]
 
 example : PrimOk exEnv (.row { loopStart := 3 } exRowEvents) := by
-  refine ⟨fun c hc => ?_, rfl⟩
+  intro c hc
   simp only [exRowEvents, List.mem_cons, List.mem_nil_iff, or_false] at hc
   rcases hc with h | h | h | h | h <;> subst h <;> simp [EvOk]
 
